@@ -8,8 +8,8 @@ class C05(Spec):
     lean_deps = ("C01", "C02", "C03")
     required_theorems = ("C05.leafCountKey_roundtrip", "C05.prune_deletes_only_dead", "C05.pruned_parents_dead",
                          "C05.prune_with_stale_entry_deletes_live", "C05.IdxInv_preserved", "C05.IdxInv_preserved_partial",
-                         "C05.IdxInv_preserved_full_false")
-    partial = ("C05.IdxInv_preserved_partial",)
+                         "C05.IdxInv_preserved_full_false", "C05.retained_state_survives_pruning_partial")
+    partial = ("C05.IdxInv_preserved_partial", "C05.retained_state_survives_pruning_partial")
     refuted = ("C05.IdxInv_preserved_full_false",)
     level_text = ("Executable Lean model of the pruning machinery (leaf-count index written by SaveNode with the parent chain, "
                   "root-per-height and max-height records, isRemoveLeafCountKey/DelLeafCountKV/RemoveLeafCountKey on re-commit, "
@@ -31,8 +31,13 @@ class C05(Spec):
                   "to the tip) and a process restart, every key of the tip and of every current-chain state within the interval is "
                   "readable with its value.")
     level_note = ("The rule-level and index-level theorems are about abstractions (version lists per key; an index LTS over abstract "
-                  "ids), linked to the byte-level model by sharing `delRule`/`parseLeafCountKey` and by the differential run — there "
-                  "is no end-to-end Lean theorem from Store histories to 'nothing live is deleted'. Differential mode runs one "
+                  "ids), linked to the byte-level model by sharing `delRule`/`parseLeafCountKey` and by the differential run — the end-to-end "
+                  "statement on the byte-level model is kept visible as C05.PruneSafeFull (linear histories, store trigger) and is "
+                  "NOT proved; retained_state_survives_pruning_partial composes the ingredients for one pruning run and one retained "
+                  "state ('no node of the state is among the deleted records') under named hypotheses: the state's leaf per key is "
+                  "the newest indexed version (byte-level IdxInv), PruneData lists ancestors of the leaf version, node keys "
+                  "identify nodes among the store's nodes (content addressing with height prefix, not derived from "
+                  "collision-freeness — under the prefix even C01's `Consistent` is not derivable). Differential mode runs one "
                   "process per block: within a longer session nodeDB.cache returns Node objects still carrying parentNode pointers "
                   "of the tree they were saved in, `_copy` copies them and the new root keeps them, so PruneData lists additional "
                   "stale ancestors (older roots) — observed, not modelled, exercised by the predicate-only 'session' run. A state at "
